@@ -386,25 +386,33 @@ def m_vec_append(eng, m, args, dest_ts, st, where):
 
 
 # ---------------------------------------------------------------------------------------------- iterators
-@model('iter', r'^(?:<&(?:mut )?Vec<.+> as IntoIterator>::into_iter|<Vec<.+> as IntoIterator>::into_iter|core::slice::<impl \[.+\]>::iter|<std::slice::Iter<.+> as IntoIterator>::into_iter)$')
+@model('iter', r'^(?:<&(?:mut )?Vec<.+> as IntoIterator>::into_iter|<Vec<.+> as IntoIterator>::into_iter|core::slice::<impl \[.+\]>::iter(?:_mut)?|<std::slice::Iter<.+> as IntoIterator>::into_iter|<&(?:mut )?\[.+\] as IntoIterator>::into_iter|<\[.+; \d+\] as IntoIterator>::into_iter|<std::array::IntoIter<.+> as IntoIterator>::into_iter|Vec::<.+>::iter(?:_mut)?|Vec::<.+>::into_iter)$')
 def m_iter(eng, m, args, dest_ts, st, where):
     v = deref(eng, st, args[0])
     if isinstance(v, It):
         return v
+    if isinstance(v, St):                      # [T; N] by value: a slice of exactly N elements
+        n = len(v.fs)
+        return It('src', Vc(TVec(None, n), bv(n, 64), list(v.fs), n), bv(0, 64))
     return It('src', v, bv(0, 64))
 
 
-@model('Iterator adaptors', r'^<.+ as Iterator>::(map|filter|flatten|filter_map)(?:::<.*>)?$')
+@model('Iterator adaptors', r'^<.+ as Iterator>::(map|filter|flatten|filter_map|flat_map|enumerate|take|skip|chain)(?:::<.*>)?$')
 def m_adapt(eng, m, args, dest_ts, st, where):
     it = deref(eng, st, args[0])
     k = m.group(1)
-    if k == 'flatten':
-        return It('flatten', it, None)
+    if k in ('flatten', 'enumerate'):
+        return It(k, it, None)
+    if k == 'chain':
+        other = deref(eng, st, args[1])
+        return It('chain', it, other if isinstance(other, It) else It('src', other, bv(0, 64)))
     return It(k, it, args[1])
 
 
 def it_elems(eng, it, st, where, pc):
     """[(guard, value)] of the remaining elements, in order; closures are run through their MIR"""
+    if it.kind == 'chain':
+        return it_elems(eng, it.a, st, where, pc) + it_elems(eng, it.b, st, where, pc)
     if it.kind == 'src':
         v = it.a
         out = []
@@ -432,17 +440,39 @@ def it_elems(eng, it, st, where, pc):
             keep = eng.call_callable(it.b, [x], st2, where)
             out.append((AND(g, keep.t), x))
         return out
-    if it.kind == 'flatten':
+    if it.kind in ('flatten', 'flat_map'):
         for g, x in inner:
+            if it.kind == 'flat_map':
+                st2 = _sub_state(st, AND(pc, g))
+                x = eng.call_callable(it.b, [x], st2, where)
             if isinstance(x, En):              # Option<T> items
                 out.append((AND(g, is_variant(x, 'Some')), payload(x, 'Some')[0]))
             elif isinstance(x, Vc):
-                for j in range(x.ty.cap):
+                for j in range(x.n):
                     if x.slots[j] is None:
                         continue
                     out.append((AND(g, z3.UGT(x.len, j)), x.slots[j]))
+            elif isinstance(x, It):
+                for g2, y in it_elems(eng, x, st, where, AND(pc, g)):
+                    out.append((AND(g, g2), y))
+            elif x is None or type(x).__name__ == 'NoValue':
+                continue
             else:
                 raise Unsupported('flatten over %r' % (x,))
+        return out
+    if it.kind == 'enumerate':
+        cnt = bv(0, 64)
+        tt = TStruct('tuple', [('0', None), ('1', None)])
+        for g, x in inner:
+            out.append((g, St(tt, [Sc(cnt), x])))
+            cnt = z3.simplify(cnt + z3.If(g, bv(1, 64), bv(0, 64)))
+        return out
+    if it.kind in ('take', 'skip'):
+        cnt = bv(0, 64)
+        n = it.b.t
+        for g, x in inner:
+            out.append((AND(g, z3.ULT(cnt, n) if it.kind == 'take' else z3.UGE(cnt, n)), x))
+            cnt = z3.simplify(cnt + z3.If(g, bv(1, 64), bv(0, 64)))
         return out
     raise Unsupported('iterator kind ' + it.kind)
 
@@ -492,7 +522,7 @@ def it_elems_slots(eng, it, st, where, pc):
     return out
 
 
-@model('Iterator::next', r'^<(?:std::slice::Iter<.+>|std::vec::IntoIter<.+>|Flatten<.+>|Filter<.+>|std::iter::Map<.+>|FilterMap<.+>|std::iter::Flatten<.+>|std::iter::Filter<.+>) as Iterator>::next$')
+@model('Iterator::next', r'^<(?:std::slice::Iter<.+>|std::vec::IntoIter<.+>|std::array::IntoIter<.+>|Flatten<.+>|FlatMap<.+>|Filter<.+>|std::iter::Map<.+>|FilterMap<.+>|std::iter::Flatten<.+>|std::iter::Filter<.+>|std::iter::FlatMap<.+>) as Iterator>::next$')
 def m_iter_next(eng, m, args, dest_ts, st, where):
     r = args[0]
     it = eng.read_ref(st, r)
@@ -524,7 +554,7 @@ def m_iter_next(eng, m, args, dest_ts, st, where):
     return simp(res)
 
 
-@model('IntoIterator for iterators', r'^<(?:Flatten<.+>|Filter<.+>|std::iter::Map<.+>|FilterMap<.+>|std::vec::IntoIter<.+>) as IntoIterator>::into_iter$')
+@model('IntoIterator for iterators', r'^<(?:Flatten<.+>|FlatMap<.+>|Filter<.+>|std::iter::Map<.+>|FilterMap<.+>|std::vec::IntoIter<.+>|std::iter::\w+<.+>|Enumerate<.+>|Chain<.+>|Take<.+>|Skip<.+>|Rev<.+>) as IntoIterator>::into_iter$')
 def m_iter_identity(eng, m, args, dest_ts, st, where):
     return deref(eng, st, args[0])
 
@@ -618,11 +648,9 @@ def m_opt_flatten(eng, m, args, dest_ts, st, where):
 def m_opt_map(eng, m, args, dest_ts, st, where):
     o, clo = deref(eng, st, args[0]), args[1]
     oty = eng.ty(dest_ts)
-    if not isinstance(clo, Clo):
-        raise Unsupported('Option::map with %r' % (clo,))
     some = is_variant(o, 'Some')
     st2 = _sub_state(st, AND(st.pc, some))
-    r = eng.call_closure(clo, [payload(o, 'Some')[0]], st2, where)
+    r = eng.call_callable(clo, [payload(o, 'Some')[0]], st2, where)
     return ite(some, mk_variant(oty, 'Some', [r]), mk_variant(oty, 'None'))
 
 
